@@ -4,7 +4,8 @@ COMMS = [
     "sh", "python3", "a", "kworker/0:1", "a b", "x)", "(y", ") (", "a) S 1",
     "fifteen-chars-x", "exactly15bytes!", "tab\tname", "nl\nname",
     "\xff\xfe", "", ")))", "((", "migration/0", "z" * 15, "Web Content",
-    "gnome-keyring-d",
+    "gnome-keyring-d", "Tgid: 1", "Tgid:\t202", "PPid:\t1", "Uid:\t0\t0\t0\t0",
+    "State:\tZ (zom", "Threads:\t99", "a\nPPid:\t1",
 ]
 
 STATES = ["S", "R", "D", "T", "t", "I", "S", "S", "R"]
